@@ -163,7 +163,11 @@ async def _drive(case: dict[str, Any], out: dict[str, Any]) -> None:
         for ev in case["events"]:
             if ev["k"] == "prop":
                 actors[(ev["g"], ev["prio"])] = ev["op"]
-        for (g, prio), op in sorted(actors.items()):
+        sub_order = sorted(actors.items())
+        import random as _random
+
+        _random.Random(len(case["events"]) * 7919 + len(actors)).shuffle(sub_order)  # any group may subscribe last
+        for (g, prio), op in sub_order:
             rr = ReportRequest(source_id=f"s{prio}", component_ids=GROUPS[g], priority=prio, set_operating_point=op)
             report_rx[(g, prio)] = reg.get_or_create(_Report, rr.get_channel_name()).new_receiver(limit=1000)
             await stx.send(rr)
